@@ -166,6 +166,13 @@ class Effects:
             else:
                 fs = [f for f in self.prog.funcs_by_q.get(d.get("_q", ""), []) if f.type == qt(d)] or \
                      list(self.prog.funcs_by_q.get(d.get("_q", ""), []))
+        elif call.get("kind") == "CallExpr" and ci.get("callee_expr") is not None and (ci["callee_expr"].get("referencedDecl") or {}).get("kind") == "FunctionDecl":
+            # a free function dumped by a separate front-end run (file-local helper of a global-namespace unit): node ids differ
+            # between runs, so it is matched by unit, name and type
+            rd = ci["callee_expr"]["referencedDecl"]
+            u = call.get("_u")
+            fs = [f for f in self.prog.funcs.values() if f.unit is u and f.kind == "FunctionDecl" and f.name == rd.get("name")
+                  and f.type == (rd.get("type") or {}).get("qualType")]
         elif ci.get("ctor_type"):
             t = ci["ctor_type"]
             cname = t.split("::")[-1]
